@@ -97,6 +97,9 @@ func run(ci any, r *mon.Rec) {
 		if len(bad) > 8 && rng.Intn(2) == 0 {
 			deliveries = append(deliveries, []int{3, 5})
 		}
+		if len(bad) == len(reply) && (pos%5 == 0 || what == "multi") && (c.Dense || pos < 6) {
+			judgeAfterGood(c, r, req, reply, bad, what, pos)
+		}
 		for di, cuts := range deliveries {
 			if !c.Dense && di == 2 && rng.Intn(2) == 0 {
 				continue
@@ -184,6 +187,39 @@ func run(ci any, r *mon.Rec) {
 	r.Cover("kind", c.Kind)
 	if c.Size == 0 && c.Kind == "bitflip" {
 		r.Sample(map[string]any{"client": clientx.KindName(c.Client), "fc": c.FC, "exception": c.Exc, "reply": fmt.Sprintf("% x", reply[:min(L, 16)]), "kind": c.Kind})
+	}
+}
+
+// judgeAfterGood: the same client first receives the intact reply (must succeed), then the corrupted one.
+func judgeAfterGood(c *Case, r *mon.Rec, req packet.Request, good, bad []byte, what string, pos int) {
+	rt := 60 * time.Millisecond
+	sess := clientx.NewSession(c.Client, clientx.Options{ReadTimeout: rt})
+	o1 := sess.Do(req, xport.Script{Reply: good, Steps: xport.Cuts(len(good), nil, 0), Tail: "eof"})
+	if o1.Err != nil || o1.Hung || o1.Panic != "" {
+		return // intact reply not accepted (expected-length known findings): nothing to compare against
+	}
+	tail := "deadline"
+	if c.Client == clientx.RTUNet {
+		tail = "eof"
+	}
+	out := sess.Do(req, xport.Script{Reply: bad, Steps: xport.Cuts(len(bad), nil, 0), Tail: tail})
+	r.Eval(1)
+	r.Distinct(mon.Mix(0x5E55, uint64(c.Client), uint64(c.FC), mon.HashS(what), uint64(pos)))
+	a := mon.Attrs{"client": clientx.KindName(c.Client), "after_good_exchange": true}
+	ctx := fmt.Sprintf("%s client fc%d, second exchange on a client that had just accepted the intact reply: corrupted reply (%s at %d) % x", clientx.KindName(c.Client), c.FC, what, pos, head(bad))
+	if out.Hung || out.Panic != "" {
+		r.Violate(c, "do-panics", a, ctx+": "+out.Panic)
+		return
+	}
+	if out.Err == nil {
+		a["what"] = what
+		r.Violate(c, "bad-crc-as-data", a, fmt.Sprintf("%s: returned %T % x as a successful response", ctx, out.Resp, head(out.Resp.Bytes())))
+		return
+	}
+	var er *packet.ErrorResponseRTU
+	if errors.As(out.Err, &er) {
+		a["what"] = what
+		r.Violate(c, "bad-crc-as-exception", a, fmt.Sprintf("%s: returned device exception %v", ctx, out.Err))
 	}
 }
 
